@@ -10,10 +10,12 @@ package c13
 import (
 	"bytes"
 	"fmt"
+	"net"
 	"os"
 	"path/filepath"
 	"sort"
 	"strings"
+	"sync"
 	"testing"
 
 	cfg "github.com/lianxiangcloud/linkchain/config"
@@ -695,7 +697,11 @@ func restartAndCheck(s *chainsim.Sim, img *world.DBSet, val *consim.ValKey, powe
 	// (node.NewNode leaves goroutines and their caches behind that nothing can stop from outside, so it is run on a
 	// bounded number of images per history: those where the status lagged - the reconciliation proper - first)
 	lagged := status.LastBlockHeight+1 == h
-	if realBudget.take(lagged) {
+	if !loopbackOK() {
+		// NewP2pManager binds a TCP listener at construction; without a loopback interface node.NewNode cannot be built at
+		// all and its failure would say nothing about the crash image
+		vstat.Label("real_newnode_skipped_no_loopback_listener")
+	} else if realBudget.take(lagged) {
 		if v := realNewNodeAgrees(s, img2, img.Status, val, h, facts[h].hash); v != nil {
 			return v
 		}
@@ -725,6 +731,21 @@ func restartAndCheck(s *chainsim.Sim, img *world.DBSet, val *consim.ValKey, powe
 	}
 	vstat.Label(fmt.Sprintf("restart_height_%s", map[bool]string{true: "includes_block", false: "excludes_block"}[h == H]))
 	return nil
+}
+
+var loopbackOnce sync.Once
+var loopbackUsable bool
+
+// loopbackOK probes once whether this machine lets a process listen on a loopback TCP port.
+func loopbackOK() bool {
+	loopbackOnce.Do(func() {
+		l, err := net.Listen("tcp", "127.0.0.1:0")
+		if err == nil {
+			l.Close()
+			loopbackUsable = true
+		}
+	})
+	return loopbackUsable
 }
 
 // realBudget bounds the node.NewNode calls of one history (reset by runCrash).
